@@ -10,8 +10,10 @@ C10 "up to rounding": a forward error bound for the accumulation of the integral
   because binary32 additions have none (`add_err`);
 * the same for the plain left fold `acc := acc + term_i` from `0.0` (`integral_accumulation_err_binary32`).
 
-What is NOT bounded here: the error of each addend `a_i` against the exact trapezoid area `Δt_i·(v_{i-1}+v_i)/2` (four more
-roundings per term; `mul_err`/`div_err`/`add_err` of `RoundingBounds.lean` give `≈ 4u` relative plus `η` terms).
+* each addend against the exact trapezoid area `Δt_i·(v_{i-1}+v_i)/2`: five roundings, relative `(1+u)^5 − 1` plus `2η`
+  (`trapVal_err`); together: the integral stream's number against the EXACT trapezoidal sum of the binary32 samples,
+  `((1+u)^(m+4) − 1)·Σ|area_i| + 2m(1+u)^(m−1)·η` (`trapsum_forward_err_binary32`, every history:
+  `integral_forward_err_binary32`).
 -/
 import Rrtk.Thm.C10
 import Rrtk.Thm.Lemmas.SoftScalar
@@ -198,7 +200,8 @@ def trapExacts : List (Datum (Quantity SF)) → List ℚ
 theorem trapVal_val (p o : Datum (Quantity SF)) :
     (trapVal p o).val = rne32 (rne32 (rne32 (rne32 ((o.time - p.time : Int) : ℚ) / 1000000000)
       * rne32 (p.value.value.val + o.value.value.val)) / 2) := by
-  simp only [trapVal, div_val, mul_val, add_val, ofInt_val, c1e9_val, c2_val]
+  simp only [trapVal, div_val, mul_val, add_val]
+  rw [c1e9_val, c2_val, ofInt_val]
 
 /-- **one addend, binary32**: `fl(fl(fl(fl(Δt)/1e9) · fl(v_p + v_o)) / 2)` is within relative `(1+u)^5 − 1` plus `2η` of the
 exact trapezoid area (the conversion of `Δt` costs two roundings, the sum one, the product one, the halving one) -/
@@ -354,6 +357,10 @@ example : ([x2p24, c1, c1].foldl (fun acc t => acc + t) (c0 : SF)).val = 1677721
   constructor
   · simp only [List.foldl_cons, List.foldl_nil, zero_add', add_rounds, x2p24_val]
   · simp only [sumVal_cons, sumVal_nil, c1_val, x2p24_val]; norm_num
+/-- the EXACT trapezoidal sum of the same run is `50331650` (areas `1`, `2^24 + 1`, `2^25`): total error `2`, inside the
+budget `((1+u)^6 − 1)·50331650 + … ≈ 18` of `trapsum_forward_err_binary32` -/
+example : trapExacts run.reverse = [1, 16777217, 33554432] ∧ (trapExacts run.reverse).sum = 50331650 := by
+  decide +kernel
 end RoundingExamples
 
 end Rrtk.Thm.C10
